@@ -514,6 +514,11 @@ fn run_history_with<T: Ix>(ops: &[Op], new: T, delta: T, total: T, spread: bool)
             }
             total.unfreeze();
             delta.unfreeze();
+            if step % 2 == 1 {
+               // unfreezing an index that is not frozen (writers do it defensively) leaves it as it is
+               total.unfreeze();
+               new.unfreeze();
+            }
             if matches!(op, Op::FreezeCycle) {
                // freezing and unfreezing again preserves contents
                total.freeze();
